@@ -66,7 +66,7 @@ def all_shallow():
 
 
 TYPE_KINDS = ["opaque", "struct", "outstruct", "enum", "opaque"]
-KINDS = ["type-disable", "method-disable", "impl-disable", "module-disable", "type-rename", "method-rename", "impl-rename", "module-rename"]
+KINDS = ["type-disable", "method-disable", "impl-disable", "module-disable", "type-rename", "method-rename", "impl-rename", "module-rename", "trait-disable"]
 
 
 def probe_source(probes, with_attrs):
@@ -110,7 +110,11 @@ def probe_source(probes, with_attrs):
             decl = "    #[diplomat::out]\n    pub struct %s { pub a: u8 }\n" % ty
             mk = "%s { %s { a: 1 } }" % (ty, ty)
             slf, slf2 = "", ""
-        body = ("%s%s%s    impl %s {\n        #[diplomat::demo(default_constructor)]\n"
+        tr_decl = ""
+        if kind == "trait-disable":
+            # a trait next to the probe type: declared (and generated) for the backends that support traits unless the condition disables it
+            tr_decl = "%s    pub trait PT%d {\n        fn tm(&self, a: u8) -> u8;\n    }\n" % (("    #[diplomat::attr(%s, disable)]\n" % cond) if with_attrs else "", k)
+        body = (tr_decl + "%s%s%s    impl %s {\n        #[diplomat::demo(default_constructor)]\n"
                 "        pub fn mk() -> %s\n%s        pub fn pa(%sw: &mut diplomat_runtime::DiplomatWrite) { }\n        pub fn pb(%s) -> u8 { 7 }\n    }\n"
                 % (t_attr, decl, i_attr, ty, mk, m_attr, slf, slf2))
         if kind.startswith("module"):
@@ -252,6 +256,20 @@ def main(tier, seed):
                         bad("condition true but %s is still present (%s)" % (ty, [m for m, x in sym.items() if x] or list(type_files(fa, ty))[:2]))
                     if not v and not (sym["pa"] and sym["destroy"]):
                         bad("condition false but %s or its methods are missing" % ty)
+                elif kind == "trait-disable":
+                    tn = "PT%d" % k
+                    present = bool(type_files(fa, tn)) or has_word(ia, "DiplomatTraitStruct_" + tn) or has_word(ia, tn)
+                    if v and present:
+                        bad("condition true but trait %s is still generated" % tn)
+                    if not v and profiles.support(b)["traits"] and not present:
+                        bad("condition false but trait %s is missing" % tn)
+                    if not (sym["pa"] and sym["pb"] and sym["destroy"]):
+                        bad("the attribute on trait %s changed the neighbouring type %s" % (tn, ty))
+                    if not v:
+                        ta, tb = type_files(fa, tn), type_files(fb, tn)
+                        out["cmp"] += len(tb)
+                        if ta != tb:
+                            bad("condition false but the trait's files differ from the attribute-free source")
                 elif kind == "method-disable":
                     if v and sym["pa"]:
                         bad("condition true but method %s_pa is still used" % ty)
